@@ -191,6 +191,12 @@ func (w *writeResHeaders) writeFrame(ctx writeContext) error {
 	if len(headerBlock) == 0 && w.trailers == nil {
 		panic("unexpected empty hpack")
 	}
+	if len(headerBlock) == 0 && w.endStream {
+		// Declared trailers that the handler never set encode to nothing;
+		// no HEADERS frame would be written below and END_STREAM would be
+		// lost. End the stream with an empty DATA frame instead.
+		return ctx.Framer().WriteData(w.streamID, true, nil)
+	}
 
 	state.H2ResHeaderOriginalSize.Inc(uint(headerSize))
 	state.H2ResHeaderCompressSize.Inc(uint(len(headerBlock)))
